@@ -129,9 +129,20 @@ def make_scenario(seed, idx, tool):
         lo, hi = max(fl // 2 + 1, fs - fs // 2), 2 * fs - fs // 2
         if lo < hi:
             utts[i_one]["n"] = int(rng.integers(lo, hi))
+    si_focus = comp is not None and comp["name"] == "si"
+    if si_focus and tool == "torch":
+        post = [p for p in post if p["name"] == "stack"]  # (post-processors that refuse an utterance without frames would forbid the frameless one)
     deltas_in_post = any(p["name"] in ("deltas", "standardize") for p in post)
     if not (tool == "torch" and deltas_in_post):
         utts[i_short]["n"] = int(rng.integers(1, 40))  # too short for a frame
+        if comp is not None and comp["name"] == "si":
+            # a computer with buffers of its own between chunks: the frameless utterance (fewer samples than half a shift)
+            # directly before an ordinary one, both through the same computer object
+            if i_short == nutt - 1:
+                utts[i_short], utts[i_short - 1] = utts[i_short - 1], utts[i_short]
+                i_short -= 1
+            utts[i_short]["n"] = 3
+            utts[i_short + 1]["n"] = max(utts[i_short + 1]["n"], int(0.05 * rate))
     scn = {"tool": tool, "idx": idx, "kind": kind, "rate": rate, "computer": comp, "pre": pre, "post": post, "utts": utts, "channel": channel,
            "syntax": [str(s) for s in rng.permutation(["inline", "json", "yaml"])[:2]], "seed_opt": 0 if idx % 3 == 0 else int(rng.integers(0, 1000))}
     if tool == "kaldi":
@@ -146,7 +157,7 @@ def make_scenario(seed, idx, tool):
             scn["min_duration"] = 0.0625
             utts.append({"id": "exactdur", "n": int(0.0625 * rate), "channels": utts[0]["channels"], "rate": rate, "container": "wav"})
             utts.append({"id": "justbelow", "n": int(0.0625 * rate) - 1, "channels": utts[0]["channels"], "rate": rate, "container": "wav", "excluded": "min_duration"})
-        if one:
+        if one or si_focus:
             scn["min_duration"] = 0.0
             scn["utts"] = utts = [u for u in utts if u.get("excluded") != "min_duration"]
         if rng.random() < 0.5:
